@@ -158,13 +158,29 @@ func advRecvSetup(s *rt.Sim, tier string) func() {
 		var peerSent []protocol.Message
 		garbage := false
 		n := 1 + pick("op", 12)
+		// a patient peer waits for its turn and conforms until message number
+		// offenceAt, so that offences also land deep inside a conversation
+		patient := chance("cfg", 2, 3)
+		offenceAt := pick("cfg", 12)
 		for i := 0; i < n; i++ {
 			var msg protocol.Message
 			tag++
+			if patient {
+				for w := 0; w < 50 && !peerAgency(sm, ms, localRole) && !violated && len(ep.errs) == 0; w++ {
+					sleep(100 * time.Millisecond)
+				}
+			}
 			trs := sm[ms].Transitions
 			switch k := pick("op", 8); {
+			case patient && i != offenceAt && peerAgency(sm, ms, localRole) && len(trs) > 0:
+				msg = msgForTransition(sp, trs[pick("op", len(trs))], tag)
+				rt.Hit("advrecv.patient-conforming")
 			case k <= 3 && peerAgency(sm, ms, localRole) && len(trs) > 0:
 				msg = msgForTransition(sp, trs[pick("op", len(trs))], tag)
+			case k <= 3 && localAgency(sm, ms, localRole) && len(trs) > 0:
+				// out of turn: a message the LOCAL side could send in this state
+				msg = msgForTransition(sp, trs[pick("op", len(trs))], tag)
+				rt.Hit("advrecv.out-of-turn-local-type")
 			case k <= 5:
 				t := sp.AllMsgs[pick("op", len(sp.AllMsgs))]
 				msg = mkMsg(sp, t, tag, 12)
